@@ -232,7 +232,7 @@ def run(prop, tier, replay=None):
                 bad.append("not-" + flag)
         if o["e2e"] == "fail":
             bad.append("end-to-end:" + ("environment" if any(r[l]["env"][e] != "U" for l in ("tc", "doc") for e in ("X", "Y")) else
-                                        next(k for k in KEYS if any(r[l]["scalar"][k] != "U" for l in ("cli", "tc", "doc")))))
+                                        next((k for k in KEYS if any(r[l]["scalar"][k] != "U" for l in ("cli", "tc", "doc"))), "format-default")))
         for b in sorted(set(bad)) or ["unclassified"]:
             V.violation(b, WHAT, {"vector": {k: r[k] for k in ("cli", "tc", "doc", "fmt")}, "observed": o})
     code, nviol, known = V.finish()
